@@ -1134,10 +1134,12 @@ impl World {
         let orig = self.slots[slot].orig.clone();
         let n_before = self.failed.len();
         let mut n = 0u64;
+        const DISTS: [usize; 4] = [1, 8, 16, 32];
         let total = match mode {
             SweepMode::BitFlips => orig.len() * 8,
             SweepMode::Truncations => orig.len(),
             SweepMode::ByteOverwrites => orig.len(),
+            SweepMode::XorPairs => orig.len() * DISTS.len(),
         };
         let mut i = 0;
         while i < total {
@@ -1146,6 +1148,13 @@ impl World {
                 SweepMode::BitFlips => b[i / 8] ^= 1 << (i % 8),
                 SweepMode::Truncations => b.truncate(i),
                 SweepMode::ByteOverwrites => b[i] = b[i].wrapping_add(0x55) ^ 0xa7,
+                SweepMode::XorPairs => {
+                    let (p, d) = (i / DISTS.len(), DISTS[i % DISTS.len()]);
+                    if p + d < b.len() {
+                        b[p] ^= 0x10;
+                        b[p + d] ^= 0x10;
+                    }
+                }
             }
             if b != orig {
                 self.slots[slot].bytes = b;
@@ -1158,6 +1167,7 @@ impl World {
                             SweepMode::BitFlips => ByteOp::FlipBit { pos: i / 8, bit: (i % 8) as u8 },
                             SweepMode::Truncations => ByteOp::Truncate { len: i },
                             SweepMode::ByteOverwrites => ByteOp::SetByte { pos: i, val: orig[i].wrapping_add(0x55) ^ 0xa7 },
+                            SweepMode::XorPairs => ByteOp::XorPair { pos: i / DISTS.len(), dist: DISTS[i % DISTS.len()], delta: 0x10 },
                         };
                         self.reduce_to = Some(vec![Ev::TamperSlot { slot, op }, Ev::Read { user: *u, slot }]);
                     }
@@ -1178,6 +1188,7 @@ impl World {
             SweepMode::BitFlips => "enumerated-bit-flips",
             SweepMode::Truncations => "enumerated-truncations",
             SweepMode::ByteOverwrites => "enumerated-byte-overwrites",
+            SweepMode::XorPairs => "enumerated-correlated-pairs",
         };
         *self.stats.checks.entry(key).or_default() += n;
         self.stats.probe(if stride == 1 { "sweep-slot-exhaustive" } else { "sweep-slot-strided" });
